@@ -232,6 +232,20 @@ fn take_log() -> Vec<Ev> {
     LOG.with(|l| std::mem::take(&mut *l.borrow_mut()))
 }
 
+/// the log without node ids (ids differ between two executions of one history)
+fn show_log(log: &[Ev]) -> String {
+    let items: Vec<String> = log
+        .iter()
+        .map(|e| match e {
+            Ev::Builder { key, .. } => format!("builder({key})"),
+            Ev::Fn { key: Some(k), role, args } => format!("{role}[key {k}]{args:?}"),
+            Ev::Fn { key: None, role, args } => format!("{role}{args:?}"),
+            Ev::Cutoff { old, new } => format!("cutoff({old},{new})"),
+        })
+        .collect();
+    format!("[{}]", items.join(", "))
+}
+
 fn cut_eq(a: &i32, b: &i32) -> bool {
     log(Ev::Cutoff { old: *a, new: *b });
     a == b
@@ -589,6 +603,18 @@ impl PkWorld {
             }
         }
 
+        // The per-key *input* nodes are the library's own (not instrumented), but the custom
+        // cutoff of the `_cutoff(Fn)` programs is consulted each time such a node recomputes
+        // with an old value: the operator recomputes an input node only after it saw the key's
+        // value differ, so equal arguments mean a per-key node of an unchanged key recomputed.
+        if log.iter().any(|e| matches!(e, Ev::Cutoff { old, new } if old == new)) {
+            vs.push(v17(
+                "C17.unchanged_key_recomputed",
+                format!("input_node_equal_values:{class}{gap}"),
+                format!("a per-key input node recomputed although its value did not change (cutoff consulted with equal values): log {}, previous input {prev:?}, current {cur:?}", show_log(log)),
+            ));
+        }
+
         // ---- witnesses
         if !calls.is_empty() {
             self.note("builder_called");
@@ -697,18 +723,24 @@ impl World for PkWorld {
             Ok(r) => r,
             Err(p) => {
                 self.dead = true;
-                self.explain = format!("PANIC at {}: {}\nlog before the panic: {log:?}", p.short_location(), p.first_line());
+                self.explain = format!("PANIC at {}: {}\nlog before the panic: {}", p.short_location(), p.first_line(), show_log(&log));
                 let kind = match a {
                     Act::Stabilise => "Stabilise",
                     Act::SetMap(_) => "SetMap",
                     Act::SetOuter(_) => "SetOuter",
                     Act::ToggleObserver => "ToggleObserver",
                 };
-                vs.push(v16(
-                    "C16.panic",
-                    format!("{kind}@{}", p.short_location()),
-                    format!("{a:?} panicked at {}: {} (family {}, input {:?}, operator's previous input {:?})", p.short_location(), p.first_line(), self.prog.fam.name(), self.cur, self.op_map),
-                ));
+                // "any panic is a violation" is a clause of C16; a run armed for C17 only does not
+                // report it (C17 does not forbid panics) but counts the histories it lost to it
+                if self.cfg.is_armed("C16") {
+                    vs.push(v16(
+                        "C16.panic",
+                        format!("{kind}@{}", p.short_location()),
+                        format!("{a:?} panicked at {}: {} (family {}, input {:?}, operator's previous input {:?})", p.short_location(), p.first_line(), self.prog.fam.name(), self.cur, self.op_map),
+                    ));
+                } else {
+                    self.note("history_cut_short_by_panic");
+                }
                 return vs;
             }
         };
@@ -734,7 +766,7 @@ impl World for PkWorld {
             if check && !log.is_empty() {
                 // C05 territory (no user function outside stabilise); here it would also break
                 // the bookkeeping of this world, so report it as machinery
-                vs.push(Violation::new("MACHINERY", "machinery", "user_fn_outside_stabilise", format!("user closures ran during {a:?}: {log:?}")));
+                vs.push(Violation::new("MACHINERY", "machinery", "user_fn_outside_stabilise", format!("user closures ran during {a:?}: {}", show_log(&log))));
             }
             self.obs_hash = hash64(&(self.obs_hash, format!("{a:?}")));
             return vs;
@@ -745,7 +777,7 @@ impl World for PkWorld {
                     let mut scratch = vec![];
                     self.judge(&log, seen, &mut scratch);
                     vs.extend(scratch.into_iter().filter(|x| self.cfg.is_armed(x.property)));
-                    self.explain = format!("observed {seen:?}\nlog: {log:?}");
+                    self.explain = format!("observed {seen:?}, expected {:?}\nlog: {}", self.prog.reference(&self.cur, self.outer), show_log(&log));
                 }
                 self.obs_hash = hash64(&(self.obs_hash, format!("{seen:?}")));
                 self.op_map = self.cur.clone();
@@ -845,7 +877,87 @@ impl World for PkWorld {
             _ => return None,
         })
     }
+    fn audit(&self) -> Vec<String> {
+        self.real.as_ref().map_or(vec![], |r| r.state.verif_audit())
+    }
     fn explain_last(&self) -> String {
         self.explain.clone()
+    }
+}
+
+#[cfg(test)]
+mod tests {
+    use super::*;
+
+    fn cfg() -> Cfg {
+        Cfg { profile: "dbg", handler_order: Some(true), armed: vec![] }
+    }
+
+    fn run(prog: &Prog, hist: &[Act]) -> (PkWorld, Vec<Violation>) {
+        crate::core::install_panic_hook();
+        let mut w = PkWorld::new(prog, &cfg());
+        let mut all = vec![];
+        for a in hist {
+            all.extend(w.step(a, true));
+        }
+        (w, all)
+    }
+
+    #[test]
+    fn pk_json_roundtrip() {
+        for p in crate::pkmaps::programs("c16/all-k2", crate::plan::Tier::Quick) {
+            assert_eq!(Prog::from_json(&p.to_json()), Some(p.clone()));
+            let w = PkWorld::new(&p, &cfg());
+            for a in w.enabled() {
+                assert_eq!(PkWorld::action_from_json(&PkWorld::action_json(&a)), Some(a));
+            }
+            w.teardown();
+        }
+        assert_eq!(crate::pkmaps::programs("c16/all-k2", crate::plan::Tier::Quick).len(), 102);
+        assert_eq!(crate::pkmaps::programs("c16/identity-k3", crate::plan::Tier::Quick).len(), 6);
+    }
+
+    /// the families without known defects are clean on a history with insert, change, removal,
+    /// an unobserved gap and outer changes
+    #[test]
+    fn pk_smoke_clean_families() {
+        for fam in [Fam::Pure, Fam::Identity, Fam::Map2, Fam::BindExisting, Fam::BindFresh] {
+            for op in [Op::Mapi, Op::FilterMapi] {
+                if fam == Fam::Identity && op == Op::FilterMapi {
+                    continue;
+                }
+                for map in [MapTy::BTree, MapTy::Ord] {
+                    for cut in [Cut::None, Cut::Never, Cut::FnEq] {
+                        let prog = Prog { op, cut, map, fam, k: 2 };
+                        let h = vec![
+                            Act::SetMap(1), Act::Stabilise, Act::SetMap(5), Act::SetOuter(1), Act::Stabilise, Act::ToggleObserver, Act::SetMap(6), Act::Stabilise,
+                            Act::SetOuter(2), Act::ToggleObserver, Act::Stabilise, Act::SetMap(0), Act::Stabilise,
+                        ];
+                        let (w, vs) = run(&prog, &h);
+                        assert!(vs.is_empty(), "{prog:?}: {vs:?}");
+                        w.teardown();
+                    }
+                }
+            }
+        }
+    }
+
+    /// prints canonical states of a few histories (cargo test -- --nocapture pk_show)
+    #[test]
+    fn pk_show() {
+        let fam = std::env::var("PK_FAM").ok().and_then(|s| Fam::from_name(&s)).unwrap_or(Fam::Pure);
+        let prog = Prog { op: Op::Mapi, cut: Cut::None, map: MapTy::BTree, fam, k: 2 };
+        let hists: Vec<Vec<Act>> = vec![
+            vec![Act::Stabilise],
+            vec![Act::SetMap(1), Act::Stabilise, Act::SetMap(0), Act::Stabilise],
+            vec![Act::SetMap(4), Act::Stabilise],
+            vec![Act::SetMap(1), Act::Stabilise, Act::SetMap(4), Act::Stabilise],
+            vec![Act::SetMap(3), Act::Stabilise, Act::SetMap(4), Act::Stabilise],
+        ];
+        for h in hists {
+            let (w, vs) = run(&prog, &h);
+            println!("==== {h:?}\nviolations: {:?}\n{}", vs.iter().map(|v| &v.sig).collect::<Vec<_>>(), w.canon().unwrap_or_default());
+            w.teardown();
+        }
     }
 }
